@@ -41,6 +41,13 @@ Theorem C31_fuel_irrelevant : forall (fuel k : nat) (root : node) (resolved todo
   resolve fuel root resolved todo links = Ok q -> resolve (fuel + k) root resolved todo links = Ok q.
 Proof. intros. apply resolve_fuel_mono. assumption. Qed.
 
+(* ... and the bound `fuel_for` used by canonicalize is enough: beyond it more fuel changes nothing, errors included
+   (every step consumes a component or expands one of at most 40 symlinks), so the model's ELOOP is the 40-link limit,
+   never an artefact of the recursion bound. *)
+Theorem C31_fuel_sufficient : forall (root : node) (todo : list string) (k : nat),
+  resolve (fuel_for root todo + k) root [] todo 0 = resolve (fuel_for root todo) root [] todo 0.
+Proof. exact fuel_for_enough. Qed.
+
 (* Non-vacuity: /w is the work directory; /w/in -> sub, /w/out -> ../o (escapes), /w/abs -> /o/f (escapes),
    /w/loop -> loop, /w/sub/f is a file, /o/f is a file outside. *)
 Definition ex_root : node :=
